@@ -161,7 +161,7 @@ def gen_cases(ctx, driver):
                             else:
                                 head = xfer_lines(tok, POST, ln, rng.randrange(200), CHANGED, ln + 5, rng.randrange(200))
                                 nb = steps_bound(sa, ma, sb, mb, ln, ln + 5)
-                            nb = min(nb, 300)
+                            nb = min(nb, 300 if thorough else 90)
                             add([cfg_line(sa, ma, sb, mb)] + head + ["net deliver"] * nb,
                                 {"szx-%d-%d" % (sa, sb), "dir-" + direction, "faultfree", "blocks-%d" % min(4, -(-ln // max(1, m)))},
                                 nontrivial=ln > m)
@@ -192,17 +192,50 @@ def gen_cases(ctx, driver):
                 n = plan_steps(driver, head)
                 if n is None:
                     n = steps_bound(sa, ma, sb, mb, ln, ln)
-                depth = 2 if (thorough and n <= 8) else 1
+                n = min(n, 24)      # a transfer that does not end (a broken tree) must not blow the enumeration up
+                depth = 2 if (thorough and n <= 16) else 1
                 for d in range(1, depth + 1):
                     vs = fault_variants(n, d)
-                    if d == 2 and len(vs) > 4000:
-                        vs = rng.sample(vs, 4000)
+                    if d == 2 and len(vs) > 2500:
+                        vs = rng.sample(vs, 2500)
                     if not thorough and d == 1 and (sa, sb) == (7, 6):
                         vs = rng.sample(vs, min(len(vs), 25))
                     for v in vs:
                         add(head + v + ["net deliver"] * (n + 4), {"faults-%d" % d, "dir-" + direction, "exhaustive-faults"})
+    # ---- 3b. directed: the resource changes in the middle of a download (new body, new ETag, new options) after the
+    #          server lost its state; several transfers of the same direction interleaved block by block
+    for (sa, ma, sb, mb) in [(0, 80, 0, 80), (1, 96, 0, 80), (2, 128, 2, 128), (6, 1100, 3, 192)]:
+        u = buflen(min(sa, sb), 0)
+        for nblk in (2, 3):
+            ln = nblk * u + 1
+            for k in range(1, 2 * nblk):
+                tok = 7
+                head = [cfg_line(sa, ma, sb, mb, 3000, 50),
+                        "reg A %d %d 0 0 - %s" % (tok, GET, REQ_OTHER),
+                        "reg B %d %d %d 21 a1 12:2a,14:3c" % (tok, CONTENT, ln),
+                        "do %d 20000" % tok]
+                add(head + ["net deliver"] * k + ["sleep 100", "tick B", "reg B %d %d %d 22 b2 12:2a,14:77" % (tok, CONTENT, ln + 3)] +
+                    ["net deliver"] * (4 * nblk + 6), {"etag-flip", "directed-etag-flip", "dir-down", "time"})
+    for (sa, ma, sb, mb) in [(0, 80, 0, 80), (1, 96, 2, 128), (3, 192, 0, 80)]:
+        u = size(min(sa, sb))
+        for direction in ("up", "down"):
+            for ntok in (2, 3):
+                toks = [101 + i for i in range(ntok)]
+                lines = [cfg_line(sa, ma, sb, mb)]
+                for i, t in enumerate(toks):
+                    ln = 2 * max(buflen(sa, ma), buflen(sb, mb)) + 1 + i
+                    if direction == "up":
+                        lines += xfer_lines(t, POST, ln, 30 + i, CHANGED, 2, 40 + i)
+                    else:
+                        lines += xfer_lines(t, GET, 0, 0, CONTENT, ln, 50 + i, etag="e%d" % i)
+                for variant in range(3):
+                    script = []
+                    r2 = random.Random(ctx.seed * 7 + variant)
+                    for _ in range(12 * ntok * (max(buflen(sa, ma), buflen(sb, mb)) // u) + 10):
+                        script.append("net swap" if r2.random() < 0.3 else "net deliver")
+                    add(lines + script + ["net deliver"] * 40, {"concurrent-%d" % ntok, "directed-interleave", "dir-" + direction, "swap"})
     # ---- 4. random histories: several tokens, random faults, injected stray / foreign blocks, ETag flips, expiry
-    nrand = 3000 if thorough else 500
+    nrand = 40000 if thorough else 3000
     for _ in range(nrand):
         cases.append(random_case(rng))
     return cases
@@ -358,27 +391,38 @@ def run_lines(ctx, art, cases, tag="x"):
 
 def explore(ctx, art):
     cases = load_corpus() + gen_cases(ctx, art.get("driver"))
-    ctx.log("cases: %d, lines: %d" % (len(cases), sum(len(c.lines) for c in cases)))
-    res = run_lines(ctx, art, cases)
-    if res is None:
-        return
-    lines, owner, impl, model, judge = res
-    bad = {}
+    nlines = sum(len(c.lines) for c in cases)
+    ctx.log("cases: %d, lines: %d" % (len(cases), nlines))
+    bad = {}      # case index -> (line index within the case, text)
     mism = {}
-    for i, (l, o) in enumerate(zip(lines, impl)):
-        ci = owner[i]
-        if o.startswith("panic") or (o == "bad-op"):
-            if ci not in bad:
-                bad[ci] = (i, "violates crash: `%s` -> %s" % (l, o))
-            continue
-        if judge is not None and judge[i] != "ok" and ci not in bad:
-            bad[ci] = (i, "%s: observed `%s`: %s" % (l, o[:300], judge[i]))
-        if model is not None and canon(model[i]) != canon(o) and ci not in mism:
-            mism[ci] = (i, l, o, model[i])
-    for ci, (i, what) in list(bad.items())[:6]:
+    total_lines = 0
+    CH = 4000
+    for base in range(0, len(cases), CH):
+        chunk = cases[base:base + CH]
+        res = run_lines(ctx, art, chunk)
+        if res is None:
+            return
+        lines, owner, impl, model, judge = res
+        total_lines += len(lines)
+        first_of = {}
+        for i, ci in enumerate(owner):
+            first_of.setdefault(ci, i)
+        for i, (l, o) in enumerate(zip(lines, impl)):
+            ci = owner[i]
+            if o.startswith("panic") or (o == "bad-op"):
+                if base + ci not in bad:
+                    bad[base + ci] = (i - first_of[ci], "violates crash: `%s` -> %s" % (l, o))
+                continue
+            if judge is not None and judge[i] != "ok" and base + ci not in bad:
+                bad[base + ci] = (i - first_of[ci], "%s: observed `%s`: %s" % (l, o[:300], judge[i]))
+            if model is not None and canon(model[i]) != canon(o) and base + ci not in mism:
+                mism[base + ci] = (i - first_of[ci], l, o, model[i])
+        if len(bad) > 200:
+            ctx.notes.append("stopped after %d cases: more than 200 failing cases" % (base + len(chunk)))
+            break
+    for ci, (k, what) in list(bad.items())[:6]:
         c = cases[ci]
-        first = sum(1 for k in range(i + 1) if owner[k] == ci)
-        rep = c.lines[:first] + ([] if c.lines[first - 1] == "end" else ["end"])
+        rep = c.lines[:k + 1] + ([] if c.lines[k] == "end" else ["end"])
         clause = what.split("violates ", 1)[-1]
         ctx.violations.append(common.Violation(clause.split(":", 1)[0], sig_of(what), what[:600],
                                                {"input": rep, "kinds": sorted(c.kinds)}))
@@ -390,10 +434,9 @@ def explore(ctx, art):
             k = sig_of(what)
             hist[k] = hist.get(k, 0) + 1
         ctx.notes.append("failing cases by signature: %s" % sorted(hist.items(), key=lambda kv: -kv[1]))
-    for ci, (i, l, o, m) in list(mism.items())[:3]:
-        first = sum(1 for k in range(i + 1) if owner[k] == ci)
+    for ci, (k, l, o, m) in list(mism.items())[:3]:
         ctx.broken.append(("correspondence", "C04 model vs implementation",
-                           "case %d line %d `%s`:\n impl  `%s`\n model `%s`\n case: %s" % (ci, first, l, o[:500], m[:500], " ; ".join(cases[ci].lines[:first])[:1500])))
+                           "case %d line %d `%s`:\n impl  `%s`\n model `%s`\n case: %s" % (ci, k + 1, l, o[:500], m[:500], " ; ".join(cases[ci].lines[:k + 1])[:1500])))
     if mism:
         ctx.notes.append("%d cases where model and implementation differ" % len(mism))
     distinct = set()
@@ -402,14 +445,14 @@ def explore(ctx, art):
         for k in c.kinds:
             ctx.count(k)
         if c.nontrivial:
-            distinct.add(tuple(c.lines))
+            distinct.add(hash(tuple(c.lines)))
     ctx.cov["distinct_nontrivial"] = len(distinct)
     ctx.cov["traces_validated_against_impl"] = len(cases)
-    ctx.cov["lines"] = len(lines)
+    ctx.cov["lines"] = total_lines
     ctx.cov["exhaustive"] = False
     ctx.cov["enumerated"] = ("all 8x8 SZX pairs (thorough: x all listed max message sizes and every boundary size; quick: a seeded "
-                             "sample of the sizes per pair); single-fault scripts exhaustive on four small configurations "
-                             "(thorough: double faults too)")
+                             "sample of the sizes per pair); single-fault scripts exhaustive on four small configurations x up/down/both "
+                             "(thorough: double-fault scripts too, capped per configuration); directed ETag-change and interleaving cases")
     ctx.cov["rule"] = ("a case is one transfer history between two real BlockWise instances: cfg (SZX/max size/expiry of both sides), "
                        "registered request and response bodies with position dependent bytes, Do or one-way WriteMessage, then relay "
                        "decisions deliver / dup / drop / swap / replay k, injected stray or foreign blocks, sleeps, expiry sweeps, "
@@ -443,7 +486,7 @@ def conn_level(ctx, art):
         f = l.split()
         if f[0] == "conn":
             n += 1
-            ctx.count("conn-" + f[1] + "-" + f[-1].split("=")[0])
+            ctx.count("conn-" + f[1] + "-" + f[-1].split("=")[1].split("-")[0])
             if f[-1].startswith("violates"):
                 ctx.violations.append(common.Violation("exact", "C04:conn:" + re.sub(r"\d+", "N", l)[:80], l, {"input": ["go test -run TestC04Conn", l]}))
     ctx.cov["conn_level_transfers"] = n
